@@ -86,8 +86,8 @@ func (tg *ThreadGroup) Stop() {
 	case <-tg.closed:
 		verifEvent("tg.stop", verifID(tg), 0)
 	default:
-		close(tg.closed)
 		verifEvent("tg.stop", verifID(tg), 1)
+		close(tg.closed)
 	}
 	tg.mu.Unlock()
 	tg.wg.Wait()
